@@ -33,13 +33,15 @@ def nt_any(st, sc):
 # nested configuration (exhaustive, ~14 min) and the larger one under a time bound
 MC_THOROUGH = [('MC_nest.cfg', 1500), ('MC_tiny.cfg', 900)]
 
+QUERY_FAULT_CALLS = ['listdir', 'stat', 'getsize', 'open:r']
+
 PROPS = {
     'C01': {
         'samples': (300, 3000),
         'repotests': True,
         'mc_quick': ['MC_quick.cfg'], 'mc_thorough': MC_THOROUGH,
         'title': 'Cache transparency',
-        'units': [('swap', 1200, 15000), ('subcache', 600, 8000), ('general', 1500, 30000), ('nested', 1500, 30000), ('selfnest', 400, 6000), ('keys', 500, 6000), ('rebuild', 500, 10000), ('foreign', 500, 8000),
+        'units': [('swap', 1200, 15000), ('subcache', 600, 8000), ('subcacheq', 300, 4000), ('general', 1500, 30000), ('nested', 1500, 30000), ('selfnest', 400, 6000), ('keys', 500, 6000), ('rebuild', 500, 10000), ('foreign', 500, 8000),
                   ('clean', 300, 4000), ('regress', 0, 0)],
         # a stale answer anywhere (C01: "always shows up in the result exactly as from scratch")
         'owned': C01_CLAUSES,
@@ -54,7 +56,7 @@ PROPS = {
         'mc_quick': ['MC_quick_clean.cfg', ('Backup_q.cfg', 300, 'FBBackup.tla')],
         'mc_thorough': MC_THOROUGH + [('Backup.cfg', 900, 'FBBackup.tla')],
         'title': 'Rollback',
-        'units': [('swap', 1500, 20000), ('subcache', 500, 6000), ('crash', 2000, 40000), ('forcrash', 800, 15000), ('foreign', 400, 6000), ('selfnest', 600, 8000), ('bulk', 3, 20),
+        'units': [('swap', 1500, 20000), ('subcache', 500, 6000), ('subcacheq', 300, 4000), ('crash', 2000, 40000), ('forcrash', 800, 15000), ('foreign', 400, 6000), ('selfnest', 600, 8000), ('bulk', 3, 20),
                   ('regress', 0, 0)],
         # "... or while the cache file is being written": an OSError injected into the cache open / write of a
         # build whose function returned normally, on histories with and without a cache directory of its own
@@ -63,6 +65,9 @@ PROPS = {
         'fault_calls': ['gzip.open:w', 'gzip.write'],
         # a library error that the program catches earlier in a build that then fails (any faultable call)
         'fault_extra': [('faultretry', 60, 800, 0, 0, None)],
+        # threads whose calls depend on each other (a directory of the previous build becomes an output file while
+        # an output below it is rebuilt): only the rollback is judged (D32, D33)
+        'thread_extra': [('threadsswap', 10, 150, 0, 0, 4, 12, 2, 20)],
         'owned': {'ExcIdentity', 'RollbackRestores', 'ExceptionPropagates', 'ExceptionClassMatches',
                   'TempDirRemoved', 'ForeignUntouched', 'CacheReplacedOnlyOnSuccess', 'FaultSurfaces',
                   'SlotName', 'SlotNamesDistinct', 'SlotSequence', 'RestoreAll', 'BackupMoves'},
@@ -93,8 +98,9 @@ PROPS = {
         'mc_quick': ['MC_quick.cfg'], 'mc_thorough': MC_THOROUGH + [('MC_self.cfg', 900)],
         'sim': [('MC_sim.cfg', 100, 1500, 60), ('MC_sim_self.cfg', 30, 500, 60)],
         'title': 'Virtual view',
+        'fault_extra': [('probe', 30, 500, 6, 0, QUERY_FAULT_CALLS, 'query'), ('swap', 60, 800, 6, 0, QUERY_FAULT_CALLS, 'query')],
         'units': [('swap', 800, 10000), ('forcrash', 600, 8000), ('probe', 700, 12000), ('general', 500, 8000), ('nested', 1000, 15000), ('bfcontract', 300, 5000),
-                  ('selfnest', 500, 6000), ('foreign', 1500, 15000), ('regress', 0, 0)],
+                  ('selfnest', 500, 6000), ('foreign', 1500, 15000), ('subcacheq', 500, 8000), ('regress', 0, 0)],
         'owned': {'AnswerMatches'},
         'nontrivial': lambda st, sc: st['q'] >= 10,
         'rule': 'every query kind on every universe path ("probe-all") at many points of random programs; '
@@ -106,7 +112,7 @@ PROPS = {
         'mc_quick': ['MC_quick.cfg'], 'mc_thorough': MC_THOROUGH,
         'title': 'Cache effectiveness',
         'units': [('rebuild', 2000, 40000), ('nested', 2500, 40000), ('rebuildclean', 800, 10000), ('general', 700, 10000),
-                  ('cmp', 300, 6000), ('regress', 0, 0)],
+                  ('cmp', 300, 6000), ('subcacheq', 500, 8000), ('regress', 0, 0)],
         'owned': {'ExecOnlyIfJustified', 'OutputsNotRewritten', 'PersistedEqualsReturned'},
         'nontrivial': lambda st, sc: st['reuse'] > 0,
         'rule': 'committed build followed by unchanged rebuilds / rebuilds after single mutations; '
@@ -226,7 +232,7 @@ PROPS = {
         # concurrent rebuilds of existing outputs followed by a rollback: profile, histories q/t, singles q/t (0 = all),
         # pairs q/t, fully enumerated histories q/t
         'thread_extra': [('threadsrb', 40, 500, 0, 0, 2, 10, 2, 30), ('threadsq', 60, 600, 8, 0, 2, 8, 6, 40),
-                         ('threadsrbl', 6, 60, 0, 0, 0, 0, 0, 0)],
+                         ('threadsrbl', 6, 60, 0, 0, 0, 0, 0, 0), ('threadsswap', 8, 100, 0, 0, 4, 12, 2, 20)],
         'units': [('regress', 0, 0)],
         'owned': set(CLAUSE_OWNER) | {'NoDeadlock', 'LockOrderAcyclic', 'LockOrderDocumented', 'LockOrderSameRole', 'CleanupRemovesOwnDirsOnly'},
         'nontrivial': lambda st, sc: any(x.get('s') == 'par' and (x.get('preempt') or x.get('rseed') is not None)
@@ -278,7 +284,11 @@ PROPS = {
         # clean after builds that created their directories from several threads (who owns a directory is decided in
         # the window between mkdir and the reservation): the canonical race shape, all preemption pairs
         'thread_units': (30, 400, 4, 0, 1, 6), 'full_pairs': (8, 80),
-        'units': [('swap', 800, 10000), ('subcache', 800, 10000), ('clean', 2000, 30000), ('rebuildclean', 2000, 30000), ('nested', 1500, 20000), ('foreign', 300, 5000)],
+        # histories in which a query of the program fails with an OSError from a read-only call of the library
+        # (listdir / stat / getsize / open for reading) and the program carries on (D35)
+        'fault_extra': [('rebuildclean', 120, 2000, 6, 0, QUERY_FAULT_CALLS, 'query'),
+                        ('clean', 80, 1500, 6, 0, QUERY_FAULT_CALLS, 'query')],
+        'units': [('swap', 800, 10000), ('subcache', 800, 10000), ('subcacheq', 300, 4000), ('clean', 2000, 30000), ('rebuildclean', 2000, 30000), ('nested', 1500, 20000), ('foreign', 300, 5000)],
         'owned': {'CleanExact', 'CleanNoCacheNoEffect', 'ForeignUntouched', 'NoSpuriousException',
                   'ReuseOnlyIfValid'},
         'nontrivial': lambda st, sc: st['clean'] > 0,
